@@ -46,7 +46,17 @@ RULE = ("world size P in 1..6, 1..12 trajectories of length 1..5 (P <= number of
         "distances, every index map and every reduction are compared exactly (means to 1e-12); the definitions regenerated "
         "from the source (Gen/MpiGen.v: gen_convert_local_indices, gen_assemble_striped_(ragged_)array, gen_striped_array_max/mean, "
         "gen_randind, gen_ctr_ids_mpi_flat, gen_cim_pair, gen_kcenters_mpi) are evaluated on the same inputs next to the hand "
-        "model.  non-trivial := P >= 2 and at "
+        "model.  Round 3s streams: (neartie) kc cases, P = 2..6, whose distances are b(1 + j 2^-k), k = 30..40, b from a small "
+        "set, j pairwise different (a float table, or frames on coordinate axes around frame 0 under the euclidean metric): tie-free "
+        "in exact arithmetic, the largest distances of different ranks agree to float32 precision, the true maximum often on "
+        "the higher rank; (rand) randind called 1..4 times with REAL generators per rank -- one seed everywhere / rank-dependent "
+        "seeds / one seed unevenly consumed / random_state=None (the process-global generator) -- on element-wise striped "
+        "arrays of 1..40 elements and on arbitrary local lengths: all ranks must return the same picks, namely those a serial "
+        "replica of rank 0's generator selects (model: randind / gen_randind on the replica's draws); hybrid cases run under "
+        "the same four generator modes; (asa) assemble_striped_array on float64/float32/float16 eighths (non-integral, "
+        "some below 1), int64/int32/uint8, bool, 1-D and 2-D/3-D rows, P = 1..6: values, shape and dtype must come back on "
+        "every rank, an entry <= 0 must be refused (model: assemble_flat / gen_assemble_striped_array on row identities).  "
+        "non-trivial := P >= 2 and at "
         "least 2 trajectories and (for clustering) >= 2 centres")
 TRUSTED = cc.TRUSTED + [
     "harness/mpisim.py: collectives are functions of the vector of per-rank contributions (MPI semantics, trusted); "
@@ -106,6 +116,45 @@ class FixedDraw(np.random.RandomState):
 
     def randint(self, *a, **k):
         return self.g
+
+
+RS_MODES = ["same", "seeds", "consumed", "none"]
+
+
+def gen_rs(rng, P):
+    """how the ranks' random generators relate (only rank 0's may matter: randind draws on rank 0 and broadcasts):
+    same = one seed everywhere; seeds = rank-dependent seeds; consumed = one seed, rank r has already used rs_k[r]
+    draws; none = random_state=None on every rank (the process-global generator)"""
+    return {"rs": rng.choice(RS_MODES), "rs_k": [rng.randint(0, 3) for _ in range(P)]}
+
+
+def make_gens(c, P):
+    """[generator handed to rank r], the generator whose draws are THE draws (rank 0's), and a restore callback"""
+    mode, seed, ks = c.get("rs", "same"), c.get("seed", 0), c.get("rs_k") or [0] * P
+    if mode == "none":
+        glob = RecRS(seed)
+        saved = np.random.mtrand._rand
+        np.random.mtrand._rand = glob          # what check_random_state(None) hands out
+
+        def restore():
+            np.random.mtrand._rand = saved
+        return [None] * P, glob, restore
+    if mode == "seeds":
+        gens = [RecRS(seed + 7919 * r) for r in range(P)]
+    else:
+        gens = [RecRS(seed) for r in range(P)]
+        if mode == "consumed":
+            for r in range(P):
+                gens[r].random_sample(ks[r])
+    return gens, gens[0], (lambda: None)
+
+
+def replica_rs(c):
+    """a fresh copy of rank 0's generator in the state it has before the first call"""
+    g = np.random.RandomState(c.get("seed", 0))
+    if c.get("rs") == "consumed":
+        g.random_sample((c.get("rs_k") or [0])[0])
+    return g
 
 
 def _err(ex):
@@ -191,6 +240,7 @@ def gen_cluster(rng, kind):
     if kind == "hybrid":
         c["n_iters"] = rng.randint(1, 3)
         c["seed"] = rng.randrange(10 ** 6)
+        c.update(gen_rs(rng, P))
     if kind == "kcw":
         c["init"] = rng.sample(range(n), rng.randint(1, min(4, n)))
         if c["nclu"] is not None and rng.random() < 0.7:
@@ -212,6 +262,112 @@ def gen_ops(rng):
     return c
 
 
+def gen_neartie(rng):
+    """round 3s: k-centers on data whose largest frame-to-centre distances on DIFFERENT ranks differ by a relative 2^-30..2^-40
+    (far below float32 resolution, far above float64 resolution) and are pairwise different in exact arithmetic: every
+    distance is b * (1 + j * 2^-k), b in a small set (so the leading digits tie all the time), j pairwise different.
+    The serial run is tie-free and is the reference; a run that compares the gathered per-rank maxima in reduced
+    precision picks another frame."""
+    P, lens = gen_lens(rng, rng.choice([2, 2, 3, 3, 4, 5, 6]))
+    n = sum(lens)
+    while n < 3 or n > 12:
+        P, lens = gen_lens(rng, rng.choice([2, 2, 3, 3, 4, 5, 6]))
+        n = sum(lens)
+    npairs = n * (n - 1) // 2
+    kmin = 30
+    while (npairs + 1) * 2.0 ** -kmin > 2.0 ** -25:
+        kmin += 1
+    k = rng.randint(kmin, 40)
+    scale = rng.choice([1.0, 1.0, 0.5, 4.0, 0.001953125, 1024.0])      # powers of two: products stay exact
+    c = {"kind": "kc", "P": P, "lens": lens, "n": n, "neartie": k}
+    js = list(range(1, npairs + 1))
+    rng.shuffle(js)
+    if rng.random() < 0.6:
+        bases = rng.choice([[1], [1, 2], [1, 2, 3], [2, 3]])
+        M = [[0.0] * n for _ in range(n)]
+        for i in range(n):
+            for j in range(i + 1, n):
+                M[i][j] = M[j][i] = scale * rng.choice(bases) * (1.0 + js.pop() * 2.0 ** -k)
+        c.update(metric="matrix", M=M, tri=False)
+    else:
+        # frame 0 at the origin, every other frame on a coordinate axis at distance b * (1 + j 2^-k) from it: the choice
+        # of the second centre is a near-tie between ranks (later choices are whatever the metric gives)
+        dim = rng.randint(1, 3)
+        bases = rng.choice([[1], [1], [1, 2], [1, 2, 3]])
+        X = [[0.0] * dim]
+        for _ in range(n - 1):
+            row = [0.0] * dim
+            row[rng.randrange(dim)] = rng.choice([-1, 1]) * scale * rng.choice(bases) * (1.0 + js.pop() * 2.0 ** -k)
+            X.append(row)
+        c.update(metric="euclidean", dtype="float64", X=X)
+    mode = rng.choice(["k", "k", "k", "r", "both"])
+    c["nclu"] = rng.randint(2, min(n, 6)) if mode in ("k", "both") else None
+    c["cutoff"] = scale * rng.choice([1, 1, 2, 1.5]) if mode in ("r", "both") else None
+    c["ti"] = bool(c["metric"] == "euclidean" and rng.random() < 0.3)
+    c["jitter"] = gen_jitter(rng)
+    return c
+
+
+def gen_rand(rng, mode=None):
+    """round 3s: randind with REAL generators per rank (not a fixed draw): several successive draws; the ranks'
+    generators are in step / seeded differently / unevenly consumed / the process-global one (random_state=None)"""
+    P = rng.choice([1, 2, 2, 3, 3, 4, 5, 6])
+    if rng.random() < 0.6:
+        n = rng.randint(max(1, P), 40)
+        ns = [len(range(r, n, P)) for r in range(P)]            # an array of n elements striped element-wise
+        packed = True
+    else:
+        ns = [rng.choice([0, 1, 1, 2, 3, 4, 7]) for _ in range(P)]
+        if sum(ns) == 0:
+            ns[rng.randrange(P)] = rng.randint(1, 3)
+        packed = ns == [len(range(r, sum(ns), P)) for r in range(P)]
+    c = {"kind": "rand", "P": P, "lens": [1] * P, "n": sum(ns), "ns": ns, "packed": packed, "ndraws": rng.randint(1, 4),
+         "seed": rng.randrange(10 ** 6), "jitter": gen_jitter(rng)}
+    c.update(gen_rs(rng, P))
+    if mode is not None:
+        c["rs"] = mode
+    return c
+
+
+ASA_DTYPES = ["float64", "float64", "float32", "float32", "float16", "int64", "int32", "uint8", "bool"]
+
+
+def gen_asa(rng, dt=None, below1=None, cls=None):
+    """round 3s: assemble_striped_array on arrays that are not trajectory lengths: non-integral floats (values below 1
+    too), 1-D and 2-D rows, small ints, bool; a nonpositive entry somewhere = the rejected class"""
+    P = rng.choice([1, 2, 2, 3, 3, 4, 5, 6])
+    n = rng.randint(P, min(14, P + rng.choice([0, 1, 2, 3, 5, 8])))
+    dt = dt or rng.choice(ASA_DTYPES)
+    tail = rng.choice([[], [], [2], [3], [2, 2]])
+    k = 1
+    for t in tail:
+        k *= t
+    cls = cls or rng.choice(["pos", "pos", "pos", "pos", "nonpos"])
+    if dt == "bool":
+        rows = [[1] * k for _ in range(n)]
+    elif dt.startswith("float"):
+        # eighths: exact in float16 too; mostly non-integral, some below 1
+        nums = rng.choice([[9, 13, 20, 33, 50, 61, 99, 100, 8, 16], [9, 11, 13, 21, 35, 61, 99],      # all >= 1
+                           [1, 3, 4, 5, 7, 9, 13, 20, 33, 50, 61, 99, 100, 8, 16]])                  # some below 1
+        if below1 is not None:
+            nums = [1, 3, 5, 7, 9, 13, 20, 33, 61, 99] if below1 else [9, 11, 13, 21, 35, 61, 99, 16]
+        rows = [[str(F(rng.choice(nums), 8) * rng.choice([1, 1, 1, 2])) for _ in range(k)] for _ in range(n)]
+        if below1 and not any(F(v) < 1 for row in rows for v in row):
+            rows[rng.randrange(n)][rng.randrange(k)] = str(F(rng.choice([1, 3, 5, 7]), 8))
+    else:
+        rows = [[rng.randint(1, 9) for _ in range(k)] for _ in range(n)]
+    if cls == "nonpos":
+        i, j = rng.randrange(n), rng.randrange(k)
+        if dt == "bool" or dt == "uint8":
+            rows[i][j] = 0
+        elif dt.startswith("float"):
+            rows[i][j] = str(F(rng.choice([0, -1, -5, -20]), 8))
+        else:
+            rows[i][j] = rng.choice([0, -1, -3])
+    return {"kind": "asa", "P": P, "lens": [1] * n, "n": n, "dtype": dt, "tail": tail, "rows": rows,
+            "jitter": gen_jitter(rng)}
+
+
 def gen_io(rng):
     P, lens = gen_lens(rng)
     return {"kind": "io", "P": P, "lens": lens, "n": sum(lens), "stride": rng.choice([1, 1, 2, 3]),
@@ -223,14 +379,24 @@ def generate(rng, tier):
     cases = []
     for _ in range(130 * mult):
         cases.append(gen_cluster(rng, "kc"))
-    for _ in range(70 * mult):
+    for i in range(70 * mult):
         cases.append(gen_cluster(rng, "hybrid"))
+        cases[-1]["rs"] = RS_MODES[i % 4]          # every generator mode, in turn
     for _ in range(60 * mult):
         cases.append(gen_cluster(rng, "kcw"))
     for _ in range(60 * mult):
         cases.append(gen_ops(rng))
     for _ in range(16 * mult):
         cases.append(gen_io(rng))
+    # round 3s streams
+    for _ in range(40 * mult):
+        cases.append(gen_neartie(rng))
+    for i in range(50 * mult):
+        cases.append(gen_rand(rng, RS_MODES[i % 4]))
+    for i in range(60 * mult):
+        # element types in turn; every third round of float cases holds values below 1; every fifth case the rejected class
+        cases.append(gen_asa(rng, ASA_DTYPES[i % len(ASA_DTYPES)], (i // len(ASA_DTYPES)) % 3 == 0,
+                             "nonpos" if i % 5 == 4 else "pos"))
     if tier == "thorough":
         # small exhaustive scope for the index maps: every P <= 4, every length vector over {1,2,3} with <= 4 trajectories
         import itertools
@@ -318,12 +484,15 @@ def run_cluster(c):
 
     def once(seed, stats):
         o = dict(out)
-        recs[:] = [RecRS(c.get("seed", 0)) for _ in range(P)]
+        gens, drawer, restore = make_gens(c, P)
+        recs[:] = gens
         try:
             o["ranks"] = mpisim.run_ranks(P, fn, jitter=seed, timeout=CASE_TIMEOUT, stats=stats)
-            o["draws"] = list(recs[0].log)
+            o["draws"] = list(drawer.log)
         except Exception as ex:
             o.update(_err(ex))
+        finally:
+            restore()
         return o
     return _run_schedules(c, once)
 
@@ -350,6 +519,60 @@ def run_ops(c):
         o["asm"] = [int(v) for v in asm]
         o["asm_dtype_ok"] = bool(asm.dtype == loc.dtype)
         return o
+
+    def once(seed, stats):
+        try:
+            return {"ranks": mpisim.run_ranks(P, fn, jitter=seed, timeout=CASE_TIMEOUT, stats=stats)}
+        except Exception as ex:
+            return _err(ex)
+    return _run_schedules(c, once)
+
+
+def run_rand(c):
+    from enspara.mpi import ops
+    P, ns = c["P"], c["ns"]
+    gens = []
+
+    def fn(r):
+        loc = np.zeros(ns[r])
+        return {"picks": [[int(v) for v in ops.randind(loc, random_state=gens[r])] for _ in range(c["ndraws"])]}
+
+    def once(seed, stats):
+        g, drawer, restore = make_gens(c, P)
+        gens[:] = g
+        try:
+            return {"ranks": mpisim.run_ranks(P, fn, jitter=seed, timeout=CASE_TIMEOUT, stats=stats),
+                    "n_drawn": len(drawer.log)}
+        except Exception as ex:
+            return _err(ex)
+        finally:
+            restore()
+    return _run_schedules(c, once)
+
+
+def asa_array(c):
+    rows = c["rows"]
+    if c["dtype"] == "bool":
+        a = np.array(rows, dtype=bool)
+    else:
+        a = np.array([[float(F(v)) for v in row] for row in rows]).astype(c["dtype"])
+    return a.reshape([len(rows)] + c["tail"])
+
+
+def _exact_rows(a):
+    a = np.asarray(a)
+    return [[str(F(float(v))) for v in row] for row in a.reshape(len(a), -1)]
+
+
+def run_asa(c):
+    from enspara.mpi import ops
+    P = c["P"]
+    g = asa_array(c)
+
+    def fn(r):
+        res = ops.assemble_striped_array(g[r::P].copy())
+        res = np.asarray(res)
+        return {"dtype": str(res.dtype), "shape": [int(v) for v in res.shape], "rows": _exact_rows(res)}
 
     def once(seed, stats):
         try:
@@ -411,7 +634,8 @@ def run_impl(c):
     kind = c["kind"]
     if _hangs.get(kind, 0) >= 3:     # circuit breaker: do not wait out a tree that hangs on every case
         return {"err": "RanksTimeout", "msg": "not run: three earlier %s cases already hung" % kind}
-    out = run_cluster(c) if kind in ("kc", "kcw", "hybrid") else run_ops(c) if kind == "ops" else run_io(c)
+    out = (run_cluster(c) if kind in ("kc", "kcw", "hybrid") else run_ops(c) if kind == "ops" else
+           run_rand(c) if kind == "rand" else run_asa(c) if kind == "asa" else run_io(c))
     if out.get("err") == "RanksTimeout":
         _hangs[kind] = _hangs.get(kind, 0) + 1
     return out
@@ -447,9 +671,61 @@ def _model_cluster(c, out):
                                                    clist(sweeps, _nl, "(list nat)"))
 
 
+def rand_expected(c):
+    """the draws of a serial replica of rank 0's generator and the (owner, index) each selects by randind's definition:
+    element g of concatenate([arange(total)[r::P] for r]) cut into pieces of n_states"""
+    P, ns = c["P"], c["ns"]
+    total = sum(ns)
+    rep = replica_rs(c)
+    gs = [int(rep.randint(total)) for _ in range(c["ndraws"])]
+    conc = [v for r in range(P) for v in range(total)[r::P]]
+    owner_of = [r for r in range(P) for _ in range(ns[r])]
+    first = [0]
+    for r in range(P):
+        first.append(first[-1] + ns[r])
+    pairs = []
+    for g in gs:
+        p = conc.index(g)
+        pairs.append([owner_of[p], p - first[owner_of[p]]])
+    return gs, pairs
+
+
+def asa_ids(c, rows):
+    """rows (exact strings) -> ids against the case's input rows: 0 = holds a nonpositive entry, i+1 = equals input row i
+    (the first such), 4999 = equals no input row"""
+    inp = _exact_rows(asa_array(c))
+    ids = []
+    for row in rows:
+        if any(F(v) <= 0 for v in row):
+            ids.append(0)
+        elif row in inp:
+            ids.append(inp.index(row) + 1)
+        else:
+            ids.append(4999)
+    return ids
+
+
 def coq_check(c, out):
+    if c["kind"] == "asa":
+        P = cn(c["P"])
+        inp = _nl(asa_ids(c, _exact_rows(asa_array(c))))
+        if out.get("err") == "ImproperlyConfigured":
+            exp = "None"
+        elif "ranks" in out:
+            exp = "(Some %s)" % _nl(asa_ids(c, out["ranks"][0]["rows"]))
+        else:
+            return None
+        return ("(CaseLib.opt_eqb CaseLib.nl_eqb (assemble_flat %s (stripes %s %s)) %s) && "
+                "(CaseLib.opt_eqb CaseLib.nl_eqb (gen_assemble_striped_array %s (stripes %s %s)) %s)" % (
+                    P, P, inp, exp, P, P, inp, exp))
     if "ranks" not in out:
         return None
+    if c["kind"] == "rand":
+        gs, _ = rand_expected(c)
+        got = _pairs(out["ranks"][0]["picks"])
+        return ("(CaseLib.list_eqb opair_eqb (map (randind %s) %s) (map Some %s)) && "
+                "(CaseLib.list_eqb opair_eqb (map (gen_randind %s %s) %s) (map Some %s))" % (
+                    _nl(c["ns"]), _nl(gs), got, cn(c["P"]), _nl(c["ns"]), _nl(gs), got))
     rk = out["ranks"]
     P, lens = cn(c["P"]), _nl(c["lens"])
     if c["kind"] in ("kc", "kcw", "hybrid"):
@@ -529,6 +805,10 @@ def coq_show(c, out=None):
             _nl(c["ns"]), cn(sum(c["ns"])), P, lens, cn(c["n"]), P, lens, _ql([str(v) for v in c["vals"]]))
     if c["kind"] == "io":
         return "(map (fun r => loaded %s r %s %s) (seq 0 %s))" % (P, cn(c["stride"]), lens, P)
+    if c["kind"] == "rand":
+        return "(map (randind %s) %s)" % (_nl(c["ns"]), _nl(rand_expected(c)[0]))
+    if c["kind"] == "asa":
+        return "(assemble_flat %s (stripes %s %s))" % (P, P, _nl(asa_ids(c, _exact_rows(asa_array(c)))))
     return "tt"
 
 
@@ -553,7 +833,63 @@ def serial_tie_free(c, out):
     return True
 
 
+def oracle_asa(c, out):
+    g = asa_array(c)
+    inp = _exact_rows(g)
+    what = "%s%s array of %d rows on %d ranks, rows %s" % (c["dtype"], c["tail"] or "", c["n"], c["P"], inp)
+    bad = any(F(v) <= 0 for row in inp for v in row)
+    if bad and c["P"] > 1:
+        if out.get("err") != "ImproperlyConfigured":
+            return [("assemble-array-guard", "%s: an entry <= 0 must be refused with ImproperlyConfigured, got %s" % (
+                what, {k: v for k, v in out.items() if k in ("err", "msg")} or "a value"))]
+        return []
+    if "err" in out:
+        return [("impl-error", "%s: %s: %s" % (what, out["err"], out.get("msg")))]
+    fails = []
+    if out.get("rerun_diff"):
+        fails.append(("arrival-order", "the ranks' results depend on the order of arrival at the collectives: " + out["rerun_diff"]))
+    for r, o in enumerate(out["ranks"]):
+        if o["rows"] != inp or o["shape"] != list(g.shape):
+            fails.append(("assemble-array", "%s: rank %d assembled %s (shape %s)" % (what, r, o["rows"], o["shape"])))
+            break
+        if o["dtype"] != c["dtype"]:
+            fails.append(("assemble-array-dtype", "%s: rank %d returned dtype %s" % (what, r, o["dtype"])))
+            break
+    return fails
+
+
+def oracle_rand(c, out):
+    if "err" in out:
+        return [("impl-error", "%s: %s" % (out["err"], out.get("msg")))]
+    fails = []
+    if out.get("rerun_diff"):
+        fails.append(("arrival-order", "the ranks' results depend on the order of arrival at the collectives: " + out["rerun_diff"]))
+    rk = out["ranks"]
+    what = "randind x%d on local lengths %s, generators '%s' (seed %d, used draws %s)" % (
+        c["ndraws"], c["ns"], c["rs"], c["seed"], c["rs_k"] if c["rs"] == "consumed" else "-")
+    picks = [o["picks"] for o in rk]
+    if any(p != picks[0] for p in picks):
+        fails.append(("randind-ranks-agree", "%s: the ranks chose different elements: %s" % (what, picks)))
+    gs, exp = rand_expected(c)
+    for r, p in enumerate(picks):
+        if p != exp:
+            fails.append(("randind-serial", "%s: rank %d returned %s; a serial draw of %s by rank 0's generator selects %s" % (
+                what, r, p, gs, exp)))
+            break
+    if c["packed"]:
+        for p, g in zip(picks[0], gs):
+            if p[0] + c["P"] * p[1] != g:      # element (owner, i) of a[owner::P] is a[owner + P*i]
+                fails.append(("randind-element", "%s: pick %s is element %d of the striped array, the draw was %d" % (
+                    what, p, p[0] + c["P"] * p[1], g)))
+                break
+    return fails
+
+
 def oracle(c, out):
+    if c["kind"] == "asa":
+        return oracle_asa(c, out)
+    if c["kind"] == "rand":
+        return oracle_rand(c, out)
     if "err" in out:
         return [("impl-error", "%s: %s" % (out["err"], out.get("msg")))]
     rk = out["ranks"]
@@ -637,7 +973,39 @@ def oracle(c, out):
     return fails[:4]
 
 
+def neartie_events(c, out):
+    """exact replay of the serial run: at how many iterations do the local maxima of two ranks agree after rounding to
+    float32 while the true (float64-exact) maximum is NOT on the lowest such rank?"""
+    D = [[F(v) for v in row] for row in out["D"]]
+    n, P, lens = len(D), c["P"], c["lens"]
+    owner = {}
+    for r in range(P):
+        for g in local_ids(lens, r, P):
+            owner[g] = r
+    nclu = c["nclu"] if c["nclu"] is not None else float("inf")
+    cutoff = F(c["cutoff"]) if c["cutoff"] is not None else F(0)
+    dist = [D[0][f] for f in range(n)]
+    k, ev = 1, 0
+    while k < nclu and max(dist) > cutoff:
+        m = max(dist)
+        cidx = dist.index(m)
+        lmax = {}
+        for f in range(n):
+            lmax[owner[f]] = max(lmax.get(owner[f], F(-1)), dist[f])
+        top32 = max(np.float32(float(v)) for v in lmax.values())
+        tied = sorted(r for r, v in lmax.items() if np.float32(float(v)) == top32)
+        if len(tied) >= 2 and owner[cidx] != tied[0]:
+            ev += 1
+        dist = [min(dist[f], D[cidx][f]) for f in range(n)]
+        k += 1
+    return ev
+
+
 def nontrivial(c, out):
+    if c["kind"] == "asa":
+        return c["P"] >= 2 and ("ranks" in out or out.get("err") == "ImproperlyConfigured")
+    if c["kind"] == "rand":
+        return "ranks" in out and c["P"] >= 2 and c["n"] >= 2
     if "ranks" not in out or c["P"] < 2 or len(c["lens"]) < 2:
         return False
     if c["kind"] in ("kc", "kcw", "hybrid"):
@@ -650,6 +1018,33 @@ def tags(c, out):
     if c["kind"] == "ops" and max(c["vals"]) < 0:
         t.append("ops-all-negative")
     lens, P = c["lens"], c["P"]
+    if c["kind"] in ("asa", "rand"):
+        sch = out.get("sched") or {}
+        if c["kind"] == "rand":
+            if "ranks" in out:
+                t.append("rand-generators-" + c["rs"])
+                if P >= 2 and c["rs"] != "same":
+                    t.append("rand-generators-out-of-step")
+                t.append("rand-packed" if c["packed"] else "rand-uneven-local-lengths")
+                if c["ndraws"] >= 2:
+                    t.append("rand-successive-draws")
+        else:
+            if out.get("err") == "ImproperlyConfigured":
+                t.append("asa-nonpositive-rejected")
+            elif "ranks" in out and P >= 2:
+                kind_ = np.dtype(c["dtype"]).kind
+                t.append("asa-dtype-" + ("float" if kind_ == "f" else "bool" if kind_ == "b" else "int"))
+                if kind_ == "f":
+                    t.append("asa-" + c["dtype"])
+                    vals = [F(v) for row in c["rows"] for v in row]
+                    if any(v.denominator != 1 for v in vals):
+                        t.append("asa-non-integral")
+                    if any(0 < v < 1 for v in vals):
+                        t.append("asa-values-below-1")
+                t.append("asa-2d-rows" if c["tail"] else "asa-1d")
+        if "err" in out and out.get("err") != "ImproperlyConfigured":
+            t.append("impl-error")
+        return t
     if any(len(owned(lens, r, P)) == 1 for r in range(P)):
         t.append("rank-owns-one-trajectory")
     if P >= 2 and len(lens) == P:
@@ -676,6 +1071,14 @@ def tags(c, out):
             t.append("ti")
         tf = serial_tie_free(c, out)
         t.append("tie-free" if tf else "ties")
+        if c.get("neartie"):
+            t.append("neartie")
+            if tf:
+                t.append("neartie-tie-free")
+                if neartie_events(c, out) >= 1:
+                    t.append("neartie-true-max-on-higher-rank")
+        if c["kind"] == "hybrid":
+            t.append("hybrid-generators-" + c.get("rs", "same"))
         owners = {p[0] for p in out["ranks"][0]["ctr"]}
         if len(owners) >= 2:
             t.append("centres-on-several-ranks")
@@ -693,7 +1096,14 @@ ESSENTIAL_TAGS = ["ops-all-negative", "kc", "kcw", "hybrid", "ops", "io", "P=1",
                   "every-rank-owns-one-trajectory", "P>=5-every-rank-owns-one-trajectory",
                   "equal-local-lengths-unequal-global", "P>=4-equal-local-lengths-unequal-global",
                   "three-schedules", "arrival-orders-varied", "last-arriver-varied",
-                  "tie-free", "ties", "ti", "centres-on-several-ranks", "pam-draws", "io-file-names-not-sorted"]
+                  "tie-free", "ties", "ti", "centres-on-several-ranks", "pam-draws", "io-file-names-not-sorted",
+                  # round 3s
+                  "rand", "asa", "neartie", "neartie-tie-free", "neartie-true-max-on-higher-rank",
+                  "rand-generators-same", "rand-generators-seeds", "rand-generators-consumed", "rand-generators-none",
+                  "rand-generators-out-of-step", "rand-packed", "rand-uneven-local-lengths", "rand-successive-draws",
+                  "hybrid-generators-same", "hybrid-generators-seeds", "hybrid-generators-consumed", "hybrid-generators-none",
+                  "asa-nonpositive-rejected", "asa-dtype-float", "asa-dtype-int", "asa-dtype-bool", "asa-float64", "asa-float32",
+                  "asa-float16", "asa-non-integral", "asa-values-below-1", "asa-2d-rows", "asa-1d"]
 
 
 def search(rng, tier):
